@@ -164,6 +164,19 @@ Theorem C08_inplace_confined_to_receiver :
       nth_error (heap (snd (step ct roots o s))) l' = nth_error (heap s) l'.
 Proof. intros ct H1 H2. exact (inplace_confined ct H1 H2). Qed.
 
+(* the element helpers (with_/update_/transform_/without_<item>), in place or not,
+   write among the pre-existing cells only the receiver's cell and the collection
+   object the attribute currently holds (looked up as the helper does: instance
+   dict, else the class attribute) *)
+Theorem C08_inplace_element_confined :
+  forall ct, no_dnc_classes ct -> own_metadata ct ->
+  forall roots x hp h a s l,
+    item_helper_attr hp = Some a -> nth x roots VNone = VRef l ->
+    forall l', l' < length (heap s) -> l' <> l ->
+      (forall lc, fst (getattr_default ct l a s) = Ok (VRef lc) -> l' <> lc) ->
+      nth_error (heap (snd (step ct roots (OpHelper x hp h) s))) l' = nth_error (heap s) l'.
+Proof. intros ct H1 H2. exact (inplace_item_confined ct H1 H2). Qed.
+
 (* the initial situation of every generated case: the heap holds exactly the
    class-level default objects (plain collections of scalars), the roots are those objects *)
 Lemma C08_initial_state_isolated h0 :
@@ -251,6 +264,7 @@ Print Assumptions C08_reset_keeps_defaults_isolated.
 Print Assumptions C08_defaults_isolated.
 Print Assumptions C08_reset_installs_what_init_assigns.
 Print Assumptions C08_inplace_confined_to_receiver.
+Print Assumptions C08_inplace_element_confined.
 Print Assumptions C08_initial_state_isolated.
 Print Assumptions C08_nonvacuous.
 Print Assumptions C08_history_nonvacuous.
